@@ -684,6 +684,46 @@ def check_rejected_add(fails_out):
     return n
 
 
+def check_ram_second_writer(fails_out):
+    """C04 on RamStorage (thread locks): while one writer is open a second ix.writer() must not come into existence;
+    once the first commits, the second proceeds and both documents are there"""
+    import threading
+    from whoosh.filedb.filestore import RamStorage
+    ix = RamStorage().create_index(schema())
+    w1 = ix.writer()
+    w1.add_document(id="one", path="/p/one", body="alfa", tag="red")
+    got = {}
+
+    def second():
+        try:
+            w2 = ix.writer()
+            got["at"] = "open" if not got.get("committed") else "after-commit"
+            w2.add_document(id="two", path="/p/two", body="bravo", tag="red")
+            w2.commit()
+            got["done"] = True
+        except Exception as e:
+            got["error"] = "%s: %s" % (type(e).__name__, e)
+    t = threading.Thread(target=second)
+    t.daemon = True
+    t.start()
+    t.join(0.4)
+    if got.get("at") == "open":
+        fails_out.append({"case": "C04-ram-second-writer", "detail": "a second writer on a RamStorage index was created while the first "
+                          "was still open (each call got its own lock?)", "corpus": None})
+    got["committed"] = True
+    try:
+        w1.commit()
+    except Exception as e:
+        fails_out.append({"case": "C04-ram-second-writer", "detail": "first writer's commit failed: %s: %s" % (type(e).__name__, e), "corpus": None})
+        return
+    t.join(5)
+    with ix.searcher() as s_:
+        ids = sorted(s_.stored_fields(dn)["id"] for dn in s_.reader().all_doc_ids())
+    if ids != ["one", "two"] or got.get("error"):
+        fails_out.append({"case": "C04-ram-lost-update", "detail": "after two serialized RamStorage writers the index holds %r (%s)"
+                          % (ids, got.get("error")), "corpus": None})
+
+
 def check_buffered(rnd, fails_out):
     """C04 (no committed update is lost) through the BufferedWriter / AsyncWriter front-ends: adds, updates and
     deletions, flushed by commit() or close(), must all be in the reopened index."""
@@ -775,6 +815,7 @@ def main():
     tempfile.tempdir = tmp
     check_toc_selection(fails)
     check_rejected_add(fails)
+    check_ram_second_writer(fails)
     shutil.rmtree(tmp, ignore_errors=True)
     seen, uniq = set(), []
     for f in fails:
